@@ -127,6 +127,67 @@ def validate_groups(work, trace_module, groups, invariant="TraceInv", timeout=90
     return reached, problems
 
 
+def leaked(r):
+    """elements whose counter is not zero at the end of a run although the node (as far as its buffers can be read)
+    does not hold them any more -- or whose counter is negative"""
+    last = None
+    for ev in r["ev"]:
+        if "obs" in ev and "rc" in ev["obs"]:
+            last = ev["obs"]
+    if last is None:
+        return []
+
+    def ints(x):
+        if isinstance(x, (list, tuple)):
+            out = []
+            for y in x:
+                out += ints(y)
+            return out
+        return [x] if isinstance(x, int) else []
+    held = set()
+    for k in ("q", "buf", "bufs", "slot"):
+        held.update(ints(last.get(k, [])))
+    return [e for e, c in enumerate(last["rc"], start=1) if c < 0 or (c > 0 and e not in held)]
+
+
+PRIVATE_OBS = ("ObsQ", "ObsBuf", "ObsTimers", "ObsSlot", "ObsNext", "ObsBufs")
+
+
+def second_pass(work, trace_module, consts_of, traces, reached, unsafe, over, group_key=None):
+    """Observations of private attributes are optional evidence: a trace that the specification rejects *at such an
+    observation* is validated again without them.  If its behaviour (deliveries, emit completions, counters, timers) is
+    then accepted, the code merely represents its state differently -- nothing to report; otherwise the behavioural event
+    at which it is rejected is what gets reported (and attributed)."""
+    redo = [i for i, (r, t) in traces.items()
+            if i in reached and reached[i][0] < reached[i][1] and reached[i][0] <= len(t) and t[reached[i][0] - 1]["ev"] in PRIVATE_OBS]
+    if not redo:
+        return 0
+    groups = {}
+    for i in redo:
+        r, t = traces[i]
+        t2 = [e for e in t if e["ev"] not in PRIVATE_OBS]
+        traces[i] = (r, t2)
+        key = group_key(r["cfg"]) if group_key else json.dumps(r["cfg"], sort_keys=True)
+        groups.setdefault(key, (r["cfg"], []))[1].append({"id": i, "ev": t2})
+    glist = [("second pass %s" % json.dumps(c, sort_keys=True), consts_of(c), ts) for c, ts in groups.values()]
+    reached2, problems2 = validate_groups(work, trace_module, glist)
+    for name, kind, detail in problems2:
+        if kind == "error":
+            raise core.MachineryError("%s (second pass) failed on %s: %s" % (trace_module, name, detail[:800]))
+    u2, o2 = getattr(validate_groups, "unsafe", {}), getattr(validate_groups, "over", {})
+    for i in redo:
+        if i in reached2:
+            reached[i] = reached2[i]
+        unsafe.pop(i, None)
+        over.pop(i, None)
+        if i in u2:
+            unsafe[i] = u2[i]
+        if i in o2:
+            over[i] = o2[i]
+    validate_groups.unsafe, validate_groups.over = unsafe, over
+    return len(redo)
+
+
 def node_engine(res, work, *, node, trace_module, cfgs, consts_of, adapt, attribute, seed, depth, limit, nrandom,
                 default_prop, mutant=None, maxlen=14, nontrivial=None, group_key=None):
     """drive the real node, adapt the logs, validate against the trace module, fill res"""
@@ -134,6 +195,10 @@ def node_engine(res, work, *, node, trace_module, cfgs, consts_of, adapt, attrib
     groups, traces = {}, {}
     for i, r in enumerate(runs, start=1):
         t = adapt(r)
+        for ev in r["ev"]:
+            if ev["ev"] == "mutated":      # no specification has such an event: the trace is rejected there
+                num = lambda xs: [x if isinstance(x, int) and not isinstance(x, bool) else -1 for x in xs]     # (JSON null is not a TLA+ value)
+                t.insert(max(len(t) - 1, 0), {"ev": "Mutated", "d": ev["d"], "was": num(ev["was"]), "now": num(ev["now"])})
         key = group_key(r["cfg"]) if group_key else json.dumps(r["cfg"], sort_keys=True)
         groups.setdefault(key, (r["cfg"], []))[1].append({"id": i, "ev": t})
         traces[i] = (r, t)
@@ -141,6 +206,10 @@ def node_engine(res, work, *, node, trace_module, cfgs, consts_of, adapt, attrib
     reached, problems = validate_groups(work, trace_module, glist)
     res.traces += len(runs)
     res.evaluations += sum(len(t[1]) for t in traces.values())
+    nredo = second_pass(work, trace_module, consts_of, traces, reached, dict(getattr(validate_groups, "unsafe", {})),
+                        dict(getattr(validate_groups, "over", {})), group_key=group_key)
+    if nredo:
+        res.notes.append("%d traces were rejected at an observation of private state and validated again on behaviour alone" % nredo)
     for name, kind, detail in problems:
         if kind == "error":
             raise core.MachineryError("%s failed on %s: %s" % (trace_module, name, detail[:800]))
@@ -179,11 +248,20 @@ def node_engine(res, work, *, node, trace_module, cfgs, consts_of, adapt, attrib
         else:
             prop, why = attribute(r, t, got[0])
             evt = t[got[0] - 1] if got[0] <= len(t) else {"ev": "end"}
+            if evt["ev"] == "Mutated":
+                prop = "C08" if node in ("timed_window", "partition") else "C02"
+                why = ("the batch delivered as #%s with elements %s was changed after it had been handed to the consumer (now %s): "
+                       "elements end up in a batch they do not belong to" % (evt["d"], evt["was"], evt["now"]))
             # a counter sequence that differs from the specification's is always a balance problem (C05); it is a
             # safety problem (C04) in addition when the callback came too early
             also = ["C05"] if prop == "C04" else []
             if prop == "C08" and evt["ev"] in ("End", "ObsTimers", "Flush", "Tick"):
                 also = ["C02"]       # an element that is never (or twice) emitted is a loss / duplication as well
+            if prop not in ("C05", "C04") and "C05" not in also:
+                lk = leaked(r)
+                if lk:
+                    also = also + ["C05"]
+                    why += "; at the end the counters of elements %s are not zero although nothing holds them" % lk
             if evt["ev"] == "End" and prop != "C03":
                 # not quiescent at the end although the driver finished everything it could: if a producer's emit is
                 # among what never completed, this is a stuck emit (lost wake-up / deadlock) as well
